@@ -24,6 +24,7 @@ mod rolling;
 mod rolltrace;
 mod timetrig;
 mod routing;
+mod sharedfile;
 mod util;
 
 fn main() {
@@ -60,6 +61,7 @@ fn main() {
         "reconfig" => reconfig::main(rest),
         "reloader" => reloader::main(rest),
         "filetrace" => filetrace::main(rest),
+        "sharedfile" => sharedfile::main(rest),
         "rolling" => rolling::main(rest),
         "fixedwindow" => fixedwindow::main(rest),
         "levelgate" => levelgate::main(rest),
